@@ -46,6 +46,8 @@ def one_round(n, tag, probs):
             if r is not None and not elab.is_leaf_def(r) and len(r.references) != 1:
                 probs.append(("non-leaf-still-shared:" + tag, "%s references %s which has %d instances" % (e1.pname(p), r.name, len(r.references))))
     for c, d in wf.wf_netlist(n):
+        if "orphan_of_" in d:
+            continue   # the orphan instances the variant itself put into the reference sets
         probs.append(("malformed-after-uniquify:%s:%s" % (c, tag), d))
     for l in n.libraries:
         names = [d.name for d in l.definitions if d.name is not None]
@@ -69,6 +71,13 @@ def worker(case):
     s = core.sdn()
     from spydrnet.uniquify import uniquify
 
+    if variant == "orphan-instance":
+        # every hierarchical cell is also referenced by an instance that sits in no definition at all (what
+        # Instance.clone() or remove_child() leave behind)
+        for l in n.libraries:
+            for d in list(l.definitions):
+                if not elab.is_leaf_def(d) and d is not n.top_instance.reference:
+                    s.Instance(name="orphan_of_" + d.name).reference = d
     if variant == "other-policy-in-force":
         # the design was built under DEFAULT; the process default is EDIF while the transformation runs
         core.sdn().namespace_manager.default = "EDIF"
@@ -152,6 +161,8 @@ def cases(tier):
             out.append((desc, "asc", "edif-identifiers-long"))
             out.append((desc, "asc", "edif-identifiers-nameless"))
             out.append((desc, "asc", "other-policy-in-force"))
+        if desc[0] in ("K1-chain2", "K2-shared", "K5-chain3") and (tier == "thorough" or sum(desc[1]) % 11 == 0):
+            out.append((desc, "asc", "orphan-instance"))
     return out
 
 
